@@ -81,7 +81,7 @@ def mmap_runs(ctx, n):
     if not shutil.which("strace"):
         ctx.assumptions.append("strace not available: MmapDirectory's system calls were not checked in this run")
         return
-    runs = []
+    runs, raws = [], []
     for i in range(n):
         d = f"/tmp/vh_mmap_{os.getpid()}_{i}"
         st = ctx.path(f"mmap_{i}.strace")
@@ -97,8 +97,9 @@ def mmap_runs(ctx, n):
         if not any(e["e"] == "commit" for e in ev) or not any(e["e"] == "meta" for e in ev):
             raise vlib.ToolError("strace conversion produced no commit / meta event")
         runs.append(ev)
+        raws.append([{"strace": line.rstrip("\n")} for line in open(st, errors="replace")])   # kept next to a rejected run
         os.remove(st)
-    n_ok = tracecheck.validate_runs(ctx, runs, "mmap", "StorageTrace", "StorageTrace_crash.cfg", owns=sc.owns_c01, key=sc.storage_key, timeout=300)
+    n_ok = tracecheck.validate_runs(ctx, runs, "mmap", "StorageTrace", "StorageTrace_crash.cfg", owns=sc.owns_c01, key=sc.storage_key, timeout=300, raw=raws)
     ctx.cov["traces_validated_against_impl"] += n_ok
     ctx.cov["mmap_directory_syscall_traces"] = {"runs": len(runs), "events": sum(len(r) for r in runs), "accepted": n_ok}
     log(f"[T] MmapDirectory under strace: {n_ok}/{len(runs)} system-call traces accepted by the storage model")
